@@ -794,6 +794,38 @@ func muxOutOfDomain(r *Rng, tier string) (int, []muxOp) {
 	return period, g.ops
 }
 
+// muxAutoSweep: automatic additions (each removed again, so the state stays small) until nextPID has passed target,
+// with explicit streams placed around pmtStartPID; then tables and data on what is left.
+func muxAutoSweep(r *Rng, tier string, target int) (int, []muxOp) {
+	g := newMuxGen(r, tier)
+	for _, pid := range []uint16{0xffe, 0xfff, 0x1001, 0x1003, 0x105} {
+		g.ops = append(g.ops, muxOp{kind: opAdd, es: g.stream(pid, 0)})
+		g.pids = append(g.pids, pid)
+	}
+	for i := 0; i < target; i++ {
+		g.addAuto(0)
+		pid := g.pids[len(g.pids)-1]
+		if pid&0xfff > 8 && pid&0xfff < 0xff8 {
+			g.ops = append(g.ops, muxOp{kind: opRemove, pid: pid})
+			g.pids = g.pids[:len(g.pids)-1]
+		}
+		if len(g.pids) > 40 {
+			g.remove(true)
+		}
+	}
+	g.setPCR(true)
+	g.tables()
+	for len(g.pids) > 6 {
+		g.remove(true)
+	}
+	if !g.has(g.pcr) {
+		g.setPCR(true)
+	}
+	pid, _ := g.anyPID()
+	g.data(pid, nil, 100)
+	return 3, g.ops
+}
+
 // the small alphabet of the bounded-exhaustive histories
 func muxAlphabet(r *Rng) []func() muxOp {
 	const e, a = 0x101, 0x100 // the explicit PID; the first automatic one
@@ -860,11 +892,16 @@ type muxMix struct {
 	random, wrap, bigPMT, many, ood int
 	maxLen                          int
 	exhaustive                      int
+	sweep                           int // automatic additions of the nextPID sweep (0: none)
 }
 
 func muxGenAll(r *Rng, tier string, m muxMix, emit func(string, Tok)) {
 	if m.exhaustive > 0 {
 		muxExhaustive(r, m.exhaustive, emit)
+	}
+	if m.sweep > 0 {
+		p, ops := muxAutoSweep(r, tier, m.sweep)
+		emit("auto-pid-sweep", muxCaseTok(p, ops))
 	}
 	for i := 0; i < m.random; i++ {
 		n := r.Range(3, m.maxLen)
